@@ -4,6 +4,7 @@ package main
 // position × NFA-state reachability conditions (no forking).
 
 import (
+	"golang.org/x/tools/go/ssa"
 	"regexp"
 	"regexp/syntax"
 	"sync"
@@ -209,4 +210,158 @@ func (in *Interp) regexMatch(pat string, s Str) *Term {
 		cur, order = next, nord
 	}
 	return matched
+}
+
+// regexSubmatch implements FindStringSubmatch on a concrete-length symbolic
+// ASCII string by running the leftmost-first backtracking search of the
+// compiled program, forking the path on every character test whose outcome is
+// not determined. On each path the search is an ordinary concrete
+// backtracking run, so priorities and captures are exact.
+func (in *Interp) regexSubmatch(fr *frame, pat string, s Str) []Str {
+	c := compileRE(pat)
+	tt := in.tt
+	prog := c.prog
+	n := s.Len()
+	ncap := prog.NumCap
+	decide := func(t *Term) bool {
+		if t.IsConst() {
+			return t.c != 0
+		}
+		return in.w.branchT(t)
+	}
+	c8 := func(v rune) *Term { return mkConst(32, uint64(v)) }
+	nl8 := mkConst(8, '\n')
+	var decodeFn *ssa.Function
+	if p := in.prog.ImportedPackage("unicode/utf8"); p != nil {
+		decodeFn = p.Func("DecodeRuneInString")
+	}
+	// runeAt decodes the rune at byte position pos the way regexp does
+	// (utf8.DecodeRuneInString, executed from its SSA so that malformed
+	// sequences come out as RuneError of width 1).
+	runeAt := func(pos int) (*Term, int) {
+		b := s.At(pos)
+		if decide(tt.Cmp(OULt, b, mkConst(8, 0x80))) {
+			return tt.Zext(b, 32), 1
+		}
+		if decodeFn == nil {
+			panic(unsupported("regexp submatch on non-ASCII input (utf8 not loaded)"))
+		}
+		res := in.call(fr, decodeFn, []Value{s.Slice(pos, n)}).(Tuple)
+		r := res[0].(*Term)
+		sz := res[1].(*Term)
+		if !sz.IsConst() {
+			panic(unsupported("regexp submatch: symbolic rune width"))
+		}
+		return r, int(sz.c)
+	}
+	runeOK := func(ins *syntax.Inst, b *Term) bool {
+		switch ins.Op {
+		case syntax.InstRuneAny:
+			return true
+		case syntax.InstRuneAnyNotNL:
+			return decide(tt.Not(tt.Eq(b, c8('\n'))))
+		}
+		if syntax.Flags(ins.Arg)&syntax.FoldCase != 0 {
+			panic(unsupported("regexp with case folding"))
+		}
+		if len(ins.Rune) == 1 {
+			return decide(tt.Eq(b, c8(ins.Rune[0])))
+		}
+		res := tFalse
+		for k := 0; k+1 < len(ins.Rune); k += 2 {
+			lo, hi := ins.Rune[k], ins.Rune[k+1]
+			if lo == hi {
+				res = tt.Or(res, tt.Eq(b, c8(lo)))
+			} else {
+				res = tt.Or(res, tt.And(tt.Cmp(OULe, c8(lo), b), tt.Cmp(OULe, b, c8(hi))))
+			}
+		}
+		return decide(res)
+	}
+	emptyOK := func(op syntax.EmptyOp, i int) bool {
+		if op&syntax.EmptyBeginText != 0 && i != 0 {
+			return false
+		}
+		if op&syntax.EmptyEndText != 0 && i != n {
+			return false
+		}
+		if op&syntax.EmptyBeginLine != 0 && i != 0 && !decide(tt.Eq(s.At(i-1), nl8)) {
+			return false
+		}
+		if op&syntax.EmptyEndLine != 0 && i != n && !decide(tt.Eq(s.At(i), nl8)) {
+			return false
+		}
+		if op&(syntax.EmptyWordBoundary|syntax.EmptyNoWordBoundary) != 0 {
+			panic(unsupported("regexp submatch with word boundary"))
+		}
+		return true
+	}
+	type job struct {
+		pc, pos int
+		caps    []int
+	}
+	for start := 0; start <= n; start++ {
+		visited := map[[2]int]bool{}
+		caps0 := make([]int, ncap)
+		for i := range caps0 {
+			caps0[i] = -1
+		}
+		stack := []job{{prog.Start, start, caps0}}
+		for len(stack) > 0 {
+			j := stack[len(stack)-1]
+			stack = stack[:len(stack)-1]
+			pc, pos, caps := j.pc, j.pos, j.caps
+		run:
+			for {
+				key := [2]int{pc, pos}
+				if visited[key] {
+					break run
+				}
+				visited[key] = true
+				ins := &prog.Inst[pc]
+				switch ins.Op {
+				case syntax.InstFail:
+					break run
+				case syntax.InstAlt, syntax.InstAltMatch:
+					stack = append(stack, job{int(ins.Arg), pos, append([]int(nil), caps...)})
+					pc = int(ins.Out)
+				case syntax.InstNop:
+					pc = int(ins.Out)
+				case syntax.InstCapture:
+					if int(ins.Arg) < len(caps) {
+						caps = append([]int(nil), caps...)
+						caps[ins.Arg] = pos
+					}
+					pc = int(ins.Out)
+				case syntax.InstEmptyWidth:
+					if !emptyOK(syntax.EmptyOp(ins.Arg), pos) {
+						break run
+					}
+					pc = int(ins.Out)
+				case syntax.InstMatch:
+					out := make([]Str, ncap/2)
+					for g := range out {
+						if caps[2*g] >= 0 && caps[2*g+1] >= 0 {
+							out[g] = s.Slice(caps[2*g], caps[2*g+1])
+						} else {
+							out[g] = mkStr("")
+						}
+					}
+					return out
+				default:
+					if pos >= n {
+						break run
+					}
+					r, width := runeAt(pos)
+					if !runeOK(ins, r) {
+						break run
+					}
+					pos += width
+					pc = int(ins.Out)
+				}
+			}
+		}
+		// unanchored programs may start later; anchored ones fail at once on their ^ test
+	}
+	return nil
 }
